@@ -152,14 +152,7 @@ def skip_guard(put_call: ast.Call, loop: ast.For):
     return False
 
 
-def run(chk):
-    repo = chk.repo
-    chk.explanation = __doc__
-    chk.trusted += ['sa.skeleton engine stubs (turn logic as established by C01-C05)', 'spec oracle sa.rules.session.seat_oracle (protocol v18 entitlement)']
-    chk.assumptions += ['clients conform to the protocol', 'byte-level content of hand / call / card texts is C19\'s subject; here they are opaque tokens with provenance']
-    sm = repo.module('network_bridge.server', 'C10')
-    srv = repo.cls('Server', 'C10')
-
+def relay_loops(chk, repo, sm):
     # ---- R2: relay loops -------------------------------------------------------------------------------------------
     n_relay = 0
     for meth in ('bidding_phase', 'playing_phase'):
@@ -198,6 +191,24 @@ def run(chk):
                         f'`{ast.unparse(n)}`: the relay skips `{resolve(g, defs) if g is not None else "nobody"}` but the message was taken from the queue of '
                         f'`{sorted(src_keys)[0]}` - the sender gets its own message back and/or another seat never sees it')
     chk.floor('C10.R2', 'relay loops', n_relay, 2)
+
+
+
+def run(chk):
+    repo = chk.repo
+    chk.explanation = __doc__
+    chk.trusted += ['sa.skeleton engine stubs (turn logic as established by C01-C05)', 'spec oracle sa.rules.session.seat_oracle (protocol v18 entitlement)']
+    chk.assumptions += ['clients conform to the protocol', 'byte-level content of hand / call / card texts is C19\'s subject; here they are opaque tokens with provenance']
+    sm = repo.module('network_bridge.server', 'C10')
+    srv = repo.cls('Server', 'C10')
+
+    # ---- R2: relay loops (structural; the relays are decided semantically by R4 on the abstract sessions - an unrecognised shape is recorded) --
+    try:
+        relay_loops(chk, repo, sm)
+    except AnalysisError as e:
+        if chk.findings:
+            raise
+        chk.note(f'C10.R2 (relay loops by structure) not evaluated: {e.why[:200]}; who receives which relayed message is decided by C10.R4')
 
     # ---- R1: information flow of hands ------------------------------------------------------------------------------
     try:
